@@ -22,6 +22,7 @@ def check(run, tier):
     progs = []
     for dev in ("evo", "fluent"):
         progs += targeted.worklist_programs(dev) + targeted.permutation_programs(dev, 3 if q else 4) + targeted.reject_programs(dev)
+        progs += [p for p in targeted.split_programs(dev) if "multidisp" not in p["id"]]
     n = 120 if q else 3000
     for i in range(n):
         dev = "evo" if i % 2 == 0 else "fluent"
